@@ -26,7 +26,8 @@ def items(tier, seed):
         src, vars_ = PROGS[name]
         goals = goals_of(vars_)
         others = [PROGS[tg[(i + 1) % len(tg)]], PROGS[tg[(i + 3) % len(tg)]]]
-        its.append(dict(name=name, src=src, goals=goals, others=[(o[0], goals_of(o[1])) for o in others], seeds=[0, 1, 7] if tier == 'quick' else [0, 1, 2, 3, 5, 7, 11, 13], budget=240))
+        its.append(dict(name=name, src=src, goals=goals, others=[(o[0], goals_of(o[1])) for o in others], seeds=[0, 1, 7] if tier == 'quick' else [0, 1, 2, 3, 5, 7, 11, 13], budget=240,
+                        cli_invariants=(i < 2 or tier != 'quick')))
     its.append(dict(name='frame_scan', kind='frame', src='frame'))
     return its
 
@@ -93,6 +94,9 @@ def frame_scan():
                     elif t.value.id in mods: found.add((rel, 'module-attr', f'{t.value.id}.{t.attr}'))
                     elif t.value.id[:1].isupper() and t.value.id not in ('Symbol',): found.add((rel, 'class-attr', f'{t.value.id}.{t.attr}'))
                     elif t.value.id == 'cls': found.add((rel, 'class-attr', f'cls.{t.attr}'))
+                # the parsed command line is ONE object shared by the analyses of all benchmark files of a run (polar.main): a store into it is history
+                if isinstance(t, ast.Attribute) and 'cli_args' in ast.unparse(t.value).split('.') and rel != 'polar.py':
+                    found.add((rel, 'shared-cli-args', f'cli_args.{t.attr}'))
             if isinstance(n, ast.FunctionDef):
                 for d in n.decorator_list:
                     if 'lru_cache' in ast.unparse(d): cached.append((rel, n.name))
@@ -165,6 +169,21 @@ def check_item(it):
                     if not ok: bad = n; break
                 if bad is not None:
                     viol.append(dict(goal=label, n=bad, observed=f'{g} = {other_txt}', expected=f'{g} = {txt} (as printed when the file is analysed alone)')); break
+    # the same with default goals (--invariants without --goals): the defaulted goals belong to one benchmark (D25)
+    if st1 == 'ok' and it.get('cli_invariants'):
+        si1, oi1, _ = common.run_cli_files([it['src']], ['--invariants'], timeout=it['budget'])
+        si2, oi2, ei2 = common.run_cli_files([other['src'], it['src']], ['--invariants'], timeout=it['budget'])
+        if si1 == 'ok' and si2 != 'timeout':
+            checked += 1
+            label = 'cli --invariants (default goals): second file after another file'
+            alone_secs = sections(oi1)
+            if si2 != 'ok':
+                viol.append(dict(goal=label, n=None, observed='error: ' + (ei2.strip().splitlines() or ['?'])[-1][:160], expected='the analysis printed when the file is analysed alone'))
+            elif alone_secs:
+                secs = sections(oi2)
+                got = secs[1] if len(secs) > 1 else {}
+                if set(got) != set(alone_secs[0]):
+                    viol.append(dict(goal=label, n=None, observed=f'goals answered: {sorted(got)}', expected=f'goals answered alone: {sorted(alone_secs[0])}'))
     base = res.get('alone')
     if base is None: return dict(status='skipped', why='baseline run timed out')
     for label, r in res.items():
